@@ -1253,6 +1253,44 @@ def apalache_inductive(chk, module, cinit, init, indinit, inv, guard=None, timeo
         shutil.rmtree(wd, ignore_errors=True)
 
 
+def tlaps_proof(chk, relpath, guard=None, timeout=900):
+    """The proof in spec/<relpath> must be accepted by tlapm (all obligations proved); with the textual mutation `guard`
+    applied at least one obligation must fail (vacuity guard). About the specification only: never a verdict."""
+    import subprocess
+    import re
+    wd = vlib.scratch("tlaps")
+    try:
+        src = open(os.path.join(vlib.VERIF, "spec", relpath)).read()
+        name = os.path.basename(relpath)[:-4]
+
+        def run(mod, text):
+            with open(os.path.join(wd, mod + ".tla"), "w") as f:
+                f.write(text.replace("MODULE " + name, "MODULE " + mod))
+            p = subprocess.run(["tlapm", "--threads", "8", mod + ".tla"], cwd=wd, capture_output=True, text=True, timeout=timeout)
+            out = p.stdout + p.stderr
+            m = re.search(r"All (\d+) obligations? proved", out)
+            return (int(m.group(1)) if m else 0), out[-500:]
+        t0 = time.time()
+        try:
+            n, tail = run(name, src)
+            st = {"stage": "tlaps:" + relpath, "obligations_proved": n}
+            if guard:
+                a, b = guard
+                assert a in src, "guard text not found in " + relpath
+                ng, _ = run(name + "Guard", src.replace(a, b))
+                st["seeded_off_by_one_rejected"] = ng == 0
+        except (subprocess.TimeoutExpired, FileNotFoundError) as e:
+            raise Inconclusive("tlapm did not finish on %s: %r" % (relpath, e))
+        st["wall_s"] = round(time.time() - t0, 1)
+        chk.stages.append(st)
+        if n == 0:
+            raise Inconclusive("tlapm does not accept the proof %s: %s" % (relpath, tail[-300:]))
+        if guard and not st["seeded_off_by_one_rejected"]:
+            raise Inconclusive("tlapm accepts the proof %s with a seeded off-by-one: it proves nothing" % relpath)
+    finally:
+        shutil.rmtree(wd, ignore_errors=True)
+
+
 def c17(chk):
     quick = chk.tier == "quick"
     # design: every interleaving of write / delete / reopen with a limit of 2 (the code clamps the limit to >= 100)
@@ -1271,6 +1309,8 @@ def c17(chk):
     # the bound for every limit: Apalache discharges the inductive invariant of DirsInd.tla with the limit symbolic
     apalache_inductive(chk, "DirsInd.tla", cinit="CInit", init="Init", indinit="IndInit", inv="IndInv",
                        guard=("Full == {d \\in active : cnt[d] >= Limit}", "Full == {d \\in active : cnt[d] > Limit}"))
+    # ... and for every number of directories as well: a TLAPS proof of the same invariant
+    tlaps_proof(chk, "proofs/DirsProof.tla", guard=("Full == {d \\in active : cnt[d] >= Limit}", "Full == {d \\in active : cnt[d] > Limit}"))
     # conformance: recorded walks of the roots validated against Dirs.tla with the real limit
     for nroots in (1, 2, 3):
         specs = [dict(seed=vlib.seed() * 7001 + i + 100 * nroots, steps=1200 if quick else 4000, keys=300 if i % 2 == 0 else 40, maxtx=2, roots=nroots,
